@@ -271,7 +271,7 @@ Proof. exact msg_example. Qed.
    at every depth, exactly the value-level keywords `shaped` ignores (`skeleton`: required, oneOf, anyOf, const,
    enum, pattern, format, minLength, maxLength; $id / $defs / annotations and everything structural are kept;
    `skeleton_env`: the same on a reference environment).  No well-formedness hypothesis is needed. *)
-From Verif Require Import Schema.Skeleton Schema.SkeletonProofs Schema.SkeletonShippedProofs.
+From Verif Require Import Schema.Skeleton Schema.SkeletonProofs Schema.SkeletonWrittenProofs Schema.SkeletonShippedProofs.
 
 (* a tree the schema shapes, read as a JSON value, conforms to the schema's skeleton ... *)
 Theorem shaped_is_validated_by_the_skeleton e base s v j :
@@ -342,6 +342,32 @@ Theorem typed_documents_with_nulls_are_validated_by_the_published_skeleton_parti
 Proof. exact (written_documents_validated_by_skeleton_strict_partial id j v d). Qed.
 Print Assumptions typed_documents_with_nulls_are_validated_by_the_published_skeleton_partial.
 
+(* the written tree reads as a JSON value whenever the tree that was given does (`readable`: every number text is
+   in the JSON grammar - true of whatever a JSON parser builds).  The hypothesis is needed: the model's
+   canonical_float accepts the text "--1", outside the grammar *)
+Theorem written_trees_read_as_json E fuel t j v :
+  readable j = true -> reenc E fuel t j = Ok v -> exists d, to_json v = Some d.
+Proof. exact (reenc_readable E fuel t j v). Qed.
+Print Assumptions written_trees_read_as_json.
+
+(* ... so for a registered type outside the listed exceptions, what the library serialises from a readable tree IS
+   a JSON value and the validator ACCEPTS it for the published schema with the value-level keywords erased *)
+Theorem typed_documents_are_accepted_by_the_published_skeleton_partial id j v :
+  ~ In id shape_unchecked -> readable j = true ->
+  reenc_schema id j = Ok v -> v <> Typed.TNull -> null_clean false v = true ->
+  exists d, to_json v = Some d /\
+            exists n, forall m, (n <= m)%nat -> validate_id (skeleton_env shipped_env) m id d = Some true.
+Proof. exact (written_documents_read_and_validated_by_skeleton_partial id j v). Qed.
+Print Assumptions typed_documents_are_accepted_by_the_published_skeleton_partial.
+
+Theorem typed_documents_with_nulls_are_accepted_by_the_published_skeleton_partial id j v :
+  ~ In id (shape_unchecked ++ shape_null_members) -> readable j = true ->
+  reenc_schema id j = Ok v -> v <> Typed.TNull -> null_clean true v = true ->
+  exists d, to_json v = Some d /\
+            exists n, forall m, (n <= m)%nat -> validate_id (skeleton_env shipped_env) m id d = Some true.
+Proof. exact (written_documents_read_and_validated_by_skeleton_strict_partial id j v). Qed.
+Print Assumptions typed_documents_with_nulls_are_accepted_by_the_published_skeleton_partial.
+
 (* the published skeleton is a real weakening: it has no value-level keyword left, the published files have *)
 Theorem published_skeleton_is_structural :
   forallb (fun t => structural (snd t)) (skeleton_env shipped_env) = true /\
@@ -357,7 +383,7 @@ Example typed_skeleton_example :
   let d := JObj [(bs "title", JStr (bs "T")); (bs "content", JStr (bs "hello"));
                  (bs "meta", JObj [(bs "a", JStr (bs "1")); (bs "b", JStr (bs "2"))])] in
   let no_content := JObj [(bs "title", JStr (bs "T"))] in
-  reenc_schema msg_id msg_in = Ok msg_out /\ to_json msg_out = Some d /\
+  reenc_schema msg_id msg_in = Ok msg_out /\ readable msg_in = true /\ to_json msg_out = Some d /\
   validate_id (skeleton_env shipped_env) 20 msg_id d = Some true /\
   validate_id shipped_env 20 msg_id d = Some true /\
   validate_id (skeleton_env shipped_env) 20 msg_id no_content = Some true /\
